@@ -326,7 +326,7 @@ pub fn run(ctx: &Ctx) -> i32 {
     }
     let ex = Excl { order_by, offset: ctx.open("order.offset"), limit_with_order: ctx.open("order.limit_with_order"), mixed_tiers: ctx.open("order.memory_and_segments"), where_not_returned: ctx.open("order.where_field_not_returned") };
     *EXCL.lock().unwrap() = Some(ex);
-    crate::props::c02::KNOWN_ID_REUSE.store(ctx.open_any("layout.segment_id_reuse"), std::sync::atomic::Ordering::Relaxed);
+    crate::props::c02::KNOWN_ID_REUSE.store(ctx.open_any("layout.stale_cache_after_id_reuse"), std::sync::atomic::Ordering::Relaxed);
     let wx = crate::props::c02::WhereExcl::from_ctx_any(ctx);
     let cases = ctx.tier.pick(96, 1500);
     let tier = ctx.tier;
